@@ -10,8 +10,10 @@ package ristretto
 
 import (
 	"fmt"
+	"os"
 	"runtime"
 	"sort"
+	"strings"
 	"sync"
 	"sync/atomic"
 	"testing"
@@ -830,7 +832,10 @@ func vfConcProperty(ev *vfEvidence, profile string, maxG int) func(t *rapid.T) {
 	return func(t *rapid.T) {
 		c := vfGenConcCase(t, p, maxG)
 		var h *vfConcHist
+		vfConcCurrent.Store(c)
+		vfConcCaseStart.Store(time.Now().UnixNano())
 		rapid.SyncTest(t, func(t *rapid.T) { h = vfConcRunTyped(c) })
+		vfConcCaseStart.Store(0)
 		vs, st := vfConcOracles(c, h)
 		if v, d := vfPick(vs, profile); v != nil {
 			t.Fatalf("%s", vfFail(profile, "cacheconc", v.Sig, map[string]any{"case": c, "history": h}, "%s", v.Msg))
@@ -867,7 +872,74 @@ func vfConcProperty(ev *vfEvidence, profile string, maxG int) func(t *rapid.T) {
 	}
 }
 
+// vfConcCurrent is the case being executed (for the deadlock monitor).
+var vfConcCurrent atomic.Pointer[vfConcCase]
+var vfConcCaseStart atomic.Int64
+
+// vfDeadlockMonitor runs OUTSIDE the bubble on the real clock. A goroutine blocked on a mutex is not
+// "durably blocked", so a lock-order / recursive-read-lock deadlock stops the bubble's clock and the
+// virtual-time watchdog never fires. The verdict here is logical, not a timeout: in a stop-the-world
+// goroutine dump no goroutine that executes cache or harness code is running or runnable, and at least one of
+// them waits for a mutex - nothing inside the process can ever release it. The real clock only decides
+// when to look (after 10 s; a case normally takes milliseconds), and two dumps 3 s apart must agree.
+func vfDeadlockMonitor(profile string, stop chan struct{}) {
+	stuckOnce := false
+	for {
+		select {
+		case <-stop:
+			return
+		case <-time.After(3 * time.Second):
+		}
+		st := vfConcCaseStart.Load()
+		if st == 0 || time.Since(time.Unix(0, st)) < 10*time.Second {
+			stuckOnce = false
+			continue
+		}
+		buf := make([]byte, 8<<20)
+		buf = buf[:runtime.Stack(buf, true)]
+		blockedOnMutex, active := 0, 0
+		for _, g := range strings.Split(string(buf), "\n\n") {
+			if !strings.Contains(g, "ristretto/v2.") || strings.Contains(g, "vfDeadlockMonitor") {
+				continue
+			}
+			head := g
+			if i := strings.Index(g, "\n"); i >= 0 {
+				head = g[:i]
+			}
+			switch {
+			case strings.Contains(head, "[running") || strings.Contains(head, "[runnable") || strings.Contains(head, "[syscall") || strings.Contains(head, "[GC") || strings.Contains(head, "[IO wait"):
+				active++
+			case strings.Contains(head, "Mutex"): // sync.Mutex.Lock, sync.RWMutex.Lock, sync.RWMutex.RLock
+				blockedOnMutex++
+			}
+		}
+		if active == 0 && blockedOnMutex > 0 {
+			if !stuckOnce {
+				stuckOnce = true
+				continue
+			}
+			c := vfConcCurrent.Load()
+			dump := string(buf)
+			if len(dump) > 60000 {
+				dump = dump[:60000]
+			}
+			if profile == "C08" {
+				vfFail("C08", "cacheconc", "C08/deadlock-on-mutex", map[string]any{"case": c, "goroutine_dump": dump},
+					"%d goroutines wait for a mutex and no goroutine running cache code is runnable (two stop-the-world dumps 3 s apart)", blockedOnMutex)
+				os.Exit(1)
+			}
+			fmt.Printf("\nVF-DIVERGED other=C08 mutex deadlock while checking %s\n", profile)
+			os.Exit(3)
+		} else {
+			stuckOnce = false
+		}
+	}
+}
+
 func vfConcTest(t *testing.T, profile string) {
+	stopMon := make(chan struct{})
+	go vfDeadlockMonitor(profile, stopMon)
+	defer close(stopMon)
 	ev := vfNewEvidence(t, profile)
 	maxG := 16
 	if vfTier() == "thorough" {
